@@ -125,9 +125,36 @@ def oracle_pseq(case, impl):
     return None
 
 
+def oracle_pwire(case, impl):
+    """C11 through the real UDP listener: clients on their own source and destination addresses, all in flight together;
+    every query is resolved under the profile of ITS OWN source / destination address."""
+    if not impl.startswith("seq="):
+        return "a query sent over UDP was not resolved / answered: " + impl[:80]
+    f = case.split(" ")
+    entries = _store_of(f[2:])
+    if entries is None:
+        return None
+    tuples = f[1].split(",")
+    outs = [] if impl == "seq=-" else impl[4:].split(",")
+    if len(outs) != len(tuples):
+        return "%d queries, %d results" % (len(tuples), len(outs))
+    for i, (t, o) in enumerate(zip(tuples, outs)):
+        a, b, m = t.split("/")[:3]
+        want = _want_profile(entries, _opt(a), _opt(b), unhex(m))
+        idb = b"" if want == "-" else unhex(want)
+        got = b"" if o == "-" else unhex(o)
+        if got != idb:
+            return ("UDP query %d of %d in flight together, sent from %s to %s, was resolved under profile %r; the first matching "
+                    "conditional entry / last unconditional entry for its own addresses is %r"
+                    % (i + 1, len(tuples), ".".join(str(x) for x in unhex(a)), ".".join(str(x) for x in unhex(b)), got, idb))
+    return None
+
+
 def oracle_prof(case, impl):
     if case.startswith("pseq "):
         return oracle_pseq(case, impl)
+    if case.startswith("pwire "):
+        return oracle_pwire(case, impl)
     if impl.startswith("PANIC") or impl.startswith("PARSE-MISMATCH") or impl.startswith("set-error") or impl == "bad-case":
         return "profile code / harness did not produce a result: " + impl[:80]
     f = case.split(" ")
